@@ -37,7 +37,6 @@ INCRATE_FILES = {
     "engine.rs": ("skrifa_in", "outline::glyf::hint::engine::verif_harness"),
     "engine_ops.rs": ("skrifa_in", "outline::glyf::hint::engine::verif_harness"),
     "decycler.rs": ("skrifa_in", "decycler::verif_harness"),
-    "color.rs": ("skrifa_in", "color::verif_harness"),
     "glyf_memory.rs": ("skrifa_in", "outline::glyf::memory::verif_harness"),
     "path.rs": ("skrifa_in", "outline::path::verif_harness"),
     "write_hook.rs": ("write_in", "write::verif_harness"),
